@@ -20,6 +20,8 @@ FailsOf(o) ==
        \cup Check("selftest:exact-block-reported", \A i \in Inexact(o) : o.blocks[i].blk = "dfp_ddeel")
   ELSE
   Check("oracle:unparsed-report", o.unparsed = 0)
+  \cup (IF o.twin # "" /\ "twin_steps" \in DOMAIN o /\ o.twin_steps >= 1
+        THEN Check("C43:numerical-jacobian-variant-disagrees", o.twin_cls <= TwinClass) ELSE {})
   \cup {"C43:inexact-block:" \o o.blocks[i].blk \o ":theta=" \o (IF o.theta = <<1, 1>> THEN "1" ELSE "1/2") \o ":"
           \o Responsible(o.cfg, o.blocks[i].eq, o.blocks[i].var) : i \in Inexact(o)}
 ASSUME JudgeAll(FailsOf)
